@@ -310,7 +310,7 @@ func pegBaseEnv() *pegEnv {
 	b := evmBaseEnv() // real app, chain id set, proposer set, infinite gas meter
 	e := &pegEnv{Env: b.fork().Env, pairs: map[string]*pegPair{}, abi: contracts.ERC20MinterBurnerDecimalsContract.ABI}
 	// accounts for every key holder (sequence lookups need them)
-	for _, a := range []int{pH1, pH2, pH3, pDeployer} {
+	for _, a := range []int{pH1, pH2, pH3, pDeployer, pThief, pZero} {
 		if err := e.App.EvmKeeper.SetAccount(e.Ctx, pegAddr[a], statedb.Account{Nonce: 0, Balance: big.NewInt(0), CodeHash: evmtypes.EmptyCodeHash}); err != nil {
 			panic(err)
 		}
@@ -1176,7 +1176,7 @@ func pegRunCase(id string, in pegInput) Case {
 			case "cc", "ce", "send", "recv", "ack", "timeout":
 				nOK++
 			case "eth":
-				if op.Call == "transfer" && op.B == pM && post.Supply.Cmp(pre.Supply) != 0 || !bigEq(post.Coin[pM], pre.Coin[pM]) {
+				if post.Supply.Cmp(pre.Supply) != 0 || !bigEq(post.Coin[pM], pre.Coin[pM]) { // the hook converted
 					nOK++
 					tags["hook-conversion"] = true
 				}
